@@ -5,12 +5,18 @@ import Whv.Gen.C17
 Driver family `reobserve` (C17).  One session (= one case id) is a `reset` line followed by operations on the REAL
 `handleReobservationRequests` loop; `post` lines are single-line cases for `common.PostObservationRequest`.
 
-* `reset   <cid> tick=<ns|none|many> chans=<chain:cap,..|->`
+* `reset   <cid> tick=<ns|none|many> chans=<chain:cap,..|-> [sfx=<hex>]`
 * `req     <cid> now=<ns> chain=<u32> tx=<hex|-> res=ok|blocked|dead lens=<chain:len,..|->`
 * `tick    <cid> now=<ns> res=.. lens=..`
 * `drain   <cid> chain=<c> n=<k> got=<chain32:txhex;..|-> lens=..`
 * `setchan <cid> chain=<c> cap=<k> lens=..`      `delchan <cid> chain=<c> lens=..`
 * `adv     <cid> now=<ns> lens=..`                 (the clock moves on, no dispatcher event)
+* `burst   <cid> now=<ns> dt=<ns> chain=<u32> from=<i> n=<k> d=<k digits> lens=<after the last>`  — an abbreviation of `k`
+  `req` lines (scale sessions): request `j` at `now + j*dt` for the transaction `le32(from+j) ++ sfx` (`sfx` from the
+  session's `reset` line), `res=ok`, the queue of chain `chain mod 2^16` grew by `d[j]` while it was handled and no other
+  queue changed.  The driver expands the line and handles every request exactly like a `req` line.
+* `rdrain  <cid> chain=<c> n=<k> got=<e;..|-> lens=..`  — a `drain` line whose items are abbreviated: `e` is
+  `<chain32>:<from>+<cnt>` (`cnt` items `chain32 : le32(from+j) ++ sfx`) or `<chain32>=<txhex|->`.
 * `end     <cid> res=ok|panic|running`
 * `post    <id> cap=<k> fill=<j> res=ok|full|blocked|panic len=<n>`
 * `adminpost <id> cap=<k> fill=<j> ctx=bg|deadline res=ok|full|err|blocked|panic len=<n> last=same|altered|missing|- prefix=ok|changed`
@@ -89,6 +95,7 @@ structure Sess where
   specs : List (String × String) := []     -- violated clauses (first text per clause), in order
   diff : Option String := none
   ended : Bool := false
+  sfx : Bytes := []                        -- scale sessions: what all transactions of the session share (from the reset line)
 
 structure St where
   s : Sess := {}
@@ -106,6 +113,8 @@ structure St where
   adminPosts : Nat := 0
   adminFull : Nat := 0
   advances : Nat := 0
+  bursts : Nat := 0
+  burstReqs : Nat := 0
 
 def Sess.addSpec (s : Sess) (clause text : String) : Sess :=
   if s.specs.any (·.1 == clause) then s else { s with specs := s.specs ++ [(clause, text)] }
@@ -122,8 +131,9 @@ def Sess.verdict (s : Sess) : List String :=
 
 def keyInfo (s : Sess) (k : Key) : KeyInfo := (s.keys.lookup k).getD {}
 
+/-- the newest entry of a key is the first one (`keyInfo` looks no further); older ones are shadowed -/
 def setKeyInfo (s : Sess) (k : Key) (i : KeyInfo) : Sess :=
-  { s with keys := (k, i) :: s.keys.filter (fun e => e.1 != k) }
+  { s with keys := (k, i) :: s.keys }
 
 /-- compare the implementation's queue lengths with the model's -/
 def cmpLens (s : Sess) (what : String) (lens : List (Nat × Nat)) : Sess :=
@@ -196,73 +206,124 @@ def matchDrain (s : Sess) (ch : Nat) (got : List Req) (exp : List GItem) : Sess 
     | .stray lo hi => identifyStray s ch g lo hi
     | .fwd _ => s) s
 
+/-- One request handled by the dispatcher (a `req` line, or one request of a `burst` line). -/
+def reqOp (st : St) (now chain : Nat) (tx : Bytes) (res : String) (lens : List (Nat × Nat)) : St :=
+  let s := st.s
+  let r : Req := ⟨chain, tx⟩
+  let named := chain % 65536
+  let st := { st with reqs := st.reqs + 1, wraps := st.wraps + (if chain ≥ 65536 then 1 else 0) }
+  if res = "blocked" then { st with s := s.addSpec "dispatcher-blocked" s!"the dispatcher did not take request {showReq r} at now={now} within the timeout" }
+  else if res ≠ "ok" then { st with s := s.addSpec "dispatcher-died" s!"the dispatcher loop ended while handling request {showReq r} at now={now}" }
+  else
+  -- ---------- Spec on the implementation's own behaviour
+  let before := (s.lens.lookup named).getD 0
+  let after := (lens.lookup named).getD 0
+  let fwd := after = before + 1 || (after > before + 1 && pending s named)
+  -- arrivals that this request cannot account for, on queues for which requests were dropped earlier
+  let expected := s.lens.map fun (c, n) => if c = named && fwd then (c, n + 1) else (c, n)
+  let late := lens.filter fun (c, n) => pending s c && n > (expected.lookup c).getD n
+  let s := noteStrays s s!"request {showReq r} at now={now}" now (expected.filter fun e => late.any (·.1 == e.1)) lens "unrequested-delivery"
+  let wrong := lens.filter fun (c, n) => c ≠ named && (s.lens.lookup c) != some n && !(late.any (·.1 == c))
+  let known := (s.caps.lookup named).isSome
+  let room := decide (before < (s.caps.lookup named).getD 0)
+  let ki := keyInfo s r.key
+  let s :=
+    if !wrong.isEmpty then s.addSpec "forwarded-to-wrong-chain" s!"request {showReq r} changed the queue of chain(s) {showLens wrong}; before {showLens s.lens}"
+    else if lens.map (·.1) ≠ s.lens.map (·.1) then s.addDiff s!"watcher set changed during a request: {showLens s.lens} -> {showLens lens}"
+    else if after ≠ before ∧ !fwd then s.addSpec "forwarded-more-than-once" s!"request {showReq r}: queue of chain {named} went {before} -> {after}"
+    else if fwd then
+      let s := match ki.lastFwd with
+        | some t0 =>
+          if now ≤ t0 + W then s.addSpec "duplicate-within-window" s!"{showReq r} forwarded at {t0} and again at {now} ({now - t0} ns later, window {W} ns)"
+          else s
+        | none => s
+      match ki.lastStray with
+      | some a =>
+        if now ≤ a + W then s.addSpec "duplicate-within-window" s!"{showReq r} reached its watcher after clock {a} (a delivery no request made) and was forwarded again at {now} (window {W} ns) - deliveries of the whole session counted"
+        else s
+      | none => s
+    else if known && room then
+      match ki.lastFwd, ki.purgeable, ki.dropped with
+      | some _, false, _ => s    -- suppressed: remembered and not yet purgeable
+      | _, _, true => s.addSpec "dropped-request-remembered" s!"{showReq r} at now={now} not forwarded although its watcher has room ({before}/{(s.caps.lookup named).getD 0}): only a DROPPED request for it preceded (last forward {ki.lastFwd}, purge tick since: {ki.purgeable})"
+      | none, _, false => s.addSpec "first-request-not-forwarded" s!"{showReq r} at now={now}: never forwarded before, watcher of chain {named} has room ({before}/{(s.caps.lookup named).getD 0}), yet nothing was sent"
+      | some t0, true, false => s.addSpec "not-forwarded-after-window" s!"{showReq r} at now={now}: forwarded at {t0}, a purge tick later than {t0}+{W} was handled since, watcher has room, yet nothing was sent"
+    else s
+  -- ---------- ghost update (from the implementation's behaviour)
+  let s :=
+    if fwd then
+      let q := (s.gq.lookup named).getD []
+      let s := { s with gq := (named, q ++ [GItem.fwd r]) :: s.gq.filter (fun e => e.1 != named) }
+      setKeyInfo s r.key { lastFwd := some now, purgeable := false, dropped := false, lastStray := (keyInfo s r.key).lastStray }
+    else if !(known && room) && (ki.lastFwd.isNone || ki.purgeable) then
+      let s := setKeyInfo s r.key { (keyInfo s r.key) with dropped := true }
+      { s with dropped := s.dropped ++ [(named, r, now)] }
+    else s
+  -- ---------- model
+  let (m', o) := step W s.model (.req now r)
+  let s := { s with model := m', lens := lens, clock := now }
+  let s := cmpLens s s!"req {showReq r} now={now} (model outcome {repr o})" lens
+  let st := match o with
+    | some (.forwarded _) => { st with forwards := st.forwards + 1, reforwards := st.reforwards + (if ki.lastFwd.isSome then 1 else 0) }
+    | some .duplicate => { st with duplicates := st.duplicates + 1 }
+    | some .full => { st with fulls := st.fulls + 1 }
+    | some .unknown => { st with unknowns := st.unknowns + 1 }
+    | none => st
+  { st with s := s }
+
+/-- A watcher took up to `n` items from its queue (a `drain` / `rdrain` line). -/
+def drainOp (st : St) (ch n : Nat) (got : List Req) (lens : List (Nat × Nat)) : St :=
+  let s := st.s
+  -- arrivals between the previous line and this drain: the queue held (what was taken + what is left) items when the
+  -- watcher took its share; more than the ghost queue knows of = strays, queued behind everything known
+  let held := lens.map fun (c, k) => if c = ch then (c, k + got.length) else (c, k)
+  let s := noteStrays s s!"a drain of chain {ch}" s.clock s.lens held "unrequested-delivery"
+  let gqc := (s.gq.lookup ch).getD []
+  let s := matchDrain s ch got (gqc.take n)
+  let s := { s with gq := (ch, gqc.drop n) :: s.gq.filter (fun e => e.1 != ch) }
+  let mq : List Req := ((s.model.chans.lookup ch).map (fun (q : Chan) => q.items)).getD []
+  let s := if got ≠ mq.take n then s.addDiff s!"drain chain {ch}: model=[{";".intercalate ((mq.take n).map showReq)}] impl=[{";".intercalate (got.map showReq)}]" else s
+  let (m', _) := step W s.model (.drain ch n)
+  let s := { s with model := m', lens := lens }
+  { st with s := cmpLens s s!"drain chain {ch}" lens }
+
+/-- 4-byte little-endian counter (transaction `i` of a scale session is `le32 i ++ sfx`). -/
+def le32 (i : Nat) : Bytes :=
+  [UInt8.ofNat (i % 256), UInt8.ofNat (i / 256 % 256), UInt8.ofNat (i / 65536 % 256), UInt8.ofNat (i / 16777216 % 256)]
+
+/-- items of an `rdrain` line -/
+def parseRuns (sfx : Bytes) (s : String) : Option (List Req) :=
+  if s = "-" then some [] else
+  (s.splitOn ";").foldlM (fun acc e =>
+    match e.splitOn "=" with
+    | [a, b] => do let a ← a.toNat?; let b ← parseHexD b; pure (acc ++ [(⟨a, b⟩ : Req)])
+    | _ =>
+      match e.splitOn ":" with
+      | [a, b] =>
+        match b.splitOn "+" with
+        | [f, c] => do
+          let a ← a.toNat?; let f ← f.toNat?; let c ← c.toNat?
+          pure (acc ++ (List.range c).map fun j => (⟨a, le32 (f + j) ++ sfx⟩ : Req))
+        | _ => none
+      | _ => none) []
+
+/-- the queue lengths after the named chain's queue grew by `g` -/
+def growLens (lens : List (Nat × Nat)) (named g : Nat) : List (Nat × Nat) :=
+  lens.map fun (c, n) => if c = named then (c, n + g) else (c, n)
+
+/-- A `burst` line: `ds.length` requests, request `j` at `now + j*dt` for transaction `from + j`, each handled by `reqOp`
+with the queue lengths the line stands for. -/
+def burstOp (st : St) (now dt chain frm : Nat) (ds : List Nat) : St :=
+  (ds.foldl (fun (acc : St × Nat) g =>
+    let (st, j) := acc
+    (reqOp st (now + j * dt) chain (le32 (frm + j) ++ st.s.sfx) "ok" (growLens st.s.lens (chain % 65536) g), j + 1)) (st, 0)).1
+
 def stepSess (st : St) (op : String) (rest : List String) : St :=
   let s := st.s
   match op with
   | "req" =>
     match kvNat rest "now", kvNat rest "chain", kvHex rest "tx", kv rest "res", kv rest "lens" >>= parsePairs with
-    | some now, some chain, some tx, some res, some lens =>
-      let r : Req := ⟨chain, tx⟩
-      let named := chain % 65536
-      let st := { st with reqs := st.reqs + 1, wraps := st.wraps + (if chain ≥ 65536 then 1 else 0) }
-      if res = "blocked" then { st with s := s.addSpec "dispatcher-blocked" s!"the dispatcher did not take request {showReq r} at now={now} within the timeout" }
-      else if res ≠ "ok" then { st with s := s.addSpec "dispatcher-died" s!"the dispatcher loop ended while handling request {showReq r} at now={now}" }
-      else
-      -- ---------- Spec on the implementation's own behaviour
-      let before := (s.lens.lookup named).getD 0
-      let after := (lens.lookup named).getD 0
-      let fwd := after = before + 1 || (after > before + 1 && pending s named)
-      -- arrivals that this request cannot account for, on queues for which requests were dropped earlier
-      let expected := s.lens.map fun (c, n) => if c = named && fwd then (c, n + 1) else (c, n)
-      let late := lens.filter fun (c, n) => pending s c && n > (expected.lookup c).getD n
-      let s := noteStrays s s!"request {showReq r} at now={now}" now (expected.filter fun e => late.any (·.1 == e.1)) lens "unrequested-delivery"
-      let wrong := lens.filter fun (c, n) => c ≠ named && (s.lens.lookup c) != some n && !(late.any (·.1 == c))
-      let known := (s.caps.lookup named).isSome
-      let room := decide (before < (s.caps.lookup named).getD 0)
-      let ki := keyInfo s r.key
-      let s :=
-        if !wrong.isEmpty then s.addSpec "forwarded-to-wrong-chain" s!"request {showReq r} changed the queue of chain(s) {showLens wrong}; before {showLens s.lens}"
-        else if lens.map (·.1) ≠ s.lens.map (·.1) then s.addDiff s!"watcher set changed during a request: {showLens s.lens} -> {showLens lens}"
-        else if after ≠ before ∧ !fwd then s.addSpec "forwarded-more-than-once" s!"request {showReq r}: queue of chain {named} went {before} -> {after}"
-        else if fwd then
-          let s := match ki.lastFwd with
-            | some t0 =>
-              if now ≤ t0 + W then s.addSpec "duplicate-within-window" s!"{showReq r} forwarded at {t0} and again at {now} ({now - t0} ns later, window {W} ns)"
-              else s
-            | none => s
-          match ki.lastStray with
-          | some a =>
-            if now ≤ a + W then s.addSpec "duplicate-within-window" s!"{showReq r} reached its watcher after clock {a} (a delivery no request made) and was forwarded again at {now} (window {W} ns) - deliveries of the whole session counted"
-            else s
-          | none => s
-        else if known && room then
-          match ki.lastFwd, ki.purgeable, ki.dropped with
-          | some _, false, _ => s    -- suppressed: remembered and not yet purgeable
-          | _, _, true => s.addSpec "dropped-request-remembered" s!"{showReq r} at now={now} not forwarded although its watcher has room ({before}/{(s.caps.lookup named).getD 0}): only a DROPPED request for it preceded (last forward {ki.lastFwd}, purge tick since: {ki.purgeable})"
-          | none, _, false => s.addSpec "first-request-not-forwarded" s!"{showReq r} at now={now}: never forwarded before, watcher of chain {named} has room ({before}/{(s.caps.lookup named).getD 0}), yet nothing was sent"
-          | some t0, true, false => s.addSpec "not-forwarded-after-window" s!"{showReq r} at now={now}: forwarded at {t0}, a purge tick later than {t0}+{W} was handled since, watcher has room, yet nothing was sent"
-        else s
-      -- ---------- ghost update (from the implementation's behaviour)
-      let s :=
-        if fwd then
-          let q := (s.gq.lookup named).getD []
-          let s := { s with gq := (named, q ++ [GItem.fwd r]) :: s.gq.filter (fun e => e.1 != named) }
-          setKeyInfo s r.key { lastFwd := some now, purgeable := false, dropped := false, lastStray := (keyInfo s r.key).lastStray }
-        else if !(known && room) && (ki.lastFwd.isNone || ki.purgeable) then
-          let s := setKeyInfo s r.key { (keyInfo s r.key) with dropped := true }
-          { s with dropped := s.dropped ++ [(named, r, now)] }
-        else s
-      -- ---------- model
-      let (m', o) := step W s.model (.req now r)
-      let s := { s with model := m', lens := lens, clock := now }
-      let s := cmpLens s s!"req {showReq r} now={now} (model outcome {repr o})" lens
-      let st := match o with
-        | some (.forwarded _) => { st with forwards := st.forwards + 1, reforwards := st.reforwards + (if ki.lastFwd.isSome then 1 else 0) }
-        | some .duplicate => { st with duplicates := st.duplicates + 1 }
-        | some .full => { st with fulls := st.fulls + 1 }
-        | some .unknown => { st with unknowns := st.unknowns + 1 }
-        | none => st
-      { st with s := s }
+    | some now, some chain, some tx, some res, some lens => reqOp st now chain tx res lens
     | _, _, _, _, _ => { st with s := s.addDiff "unparsable req line" }
   | "tick" =>
     match kvNat rest "now", kv rest "res", kv rest "lens" >>= parsePairs with
@@ -284,20 +345,22 @@ def stepSess (st : St) (op : String) (rest : List String) : St :=
     | _, _, _ => { st with s := s.addDiff "unparsable tick line" }
   | "drain" =>
     match kvNat rest "chain", kvNat rest "n", kv rest "got" >>= parseItems, kv rest "lens" >>= parsePairs with
-    | some ch, some n, some got, some lens =>
-      -- arrivals between the previous line and this drain: the queue held (what was taken + what is left) items when the
-      -- watcher took its share; more than the ghost queue knows of = strays, queued behind everything known
-      let held := lens.map fun (c, k) => if c = ch then (c, k + got.length) else (c, k)
-      let s := noteStrays s s!"a drain of chain {ch}" s.clock s.lens held "unrequested-delivery"
-      let gqc := (s.gq.lookup ch).getD []
-      let s := matchDrain s ch got (gqc.take n)
-      let s := { s with gq := (ch, gqc.drop n) :: s.gq.filter (fun e => e.1 != ch) }
-      let mq : List Req := ((s.model.chans.lookup ch).map (fun (q : Chan) => q.items)).getD []
-      let s := if got ≠ mq.take n then s.addDiff s!"drain chain {ch}: model=[{";".intercalate ((mq.take n).map showReq)}] impl=[{";".intercalate (got.map showReq)}]" else s
-      let (m', _) := step W s.model (.drain ch n)
-      let s := { s with model := m', lens := lens }
-      { st with s := cmpLens s s!"drain chain {ch}" lens }
+    | some ch, some n, some got, some lens => drainOp st ch n got lens
     | _, _, _, _ => { st with s := s.addDiff "unparsable drain line" }
+  | "rdrain" =>
+    match kvNat rest "chain", kvNat rest "n", kv rest "got" >>= parseRuns s.sfx, kv rest "lens" >>= parsePairs with
+    | some ch, some n, some got, some lens => drainOp st ch n got lens
+    | _, _, _, _ => { st with s := s.addDiff "unparsable rdrain line" }
+  | "burst" =>
+    match kvNat rest "now", kvNat rest "dt", kvNat rest "chain", kvNat rest "from", kvNat rest "n", kv rest "d", kv rest "lens" >>= parsePairs with
+    | some now, some dt, some chain, some frm, some n, some d, some lens =>
+      let ds := d.toList.map fun c => c.toNat - 48
+      if ds.length ≠ n ∨ d.toList.any (fun c => !c.isDigit) then { st with s := s.addDiff "burst line: d does not have n digits" }
+      else
+        let st := burstOp { st with bursts := st.bursts + 1, burstReqs := st.burstReqs + n } now dt chain frm ds
+        if st.s.lens = lens then st
+        else { st with s := st.s.addDiff s!"burst line: the queue lengths it ends with ({showLens lens}) are not those its digits add up to ({showLens st.s.lens})" }
+    | _, _, _, _, _, _, _ => { st with s := s.addDiff "unparsable burst line" }
   | "setchan" =>
     match kvNat rest "chain", kvNat rest "cap", kv rest "lens" >>= parsePairs with
     | some ch, some cap, some lens =>
@@ -340,7 +403,7 @@ def step (st : St) (line : String) : St × List String :=
     | some tick, some chans =>
       let s : Sess := { cid := cid, active := true,
                         model := { cache := [], chans := chans.map fun (c, k) => (c, ({ cap := k, items := [] } : Chan)) },
-                        caps := chans, lens := chans.map fun (c, _) => (c, 0) }
+                        caps := chans, lens := chans.map fun (c, _) => (c, 0), sfx := (kvHex rest "sfx").getD [] }
       let s := if tick = toString Whv.Gen.C17.tickNs then s
                else s.addDiff s!"purge ticker period: the loop asked clock.Ticker for {tick} ns, the extracted constant is {Whv.Gen.C17.tickNs} ns"
       ({ st with s := s, sessions := st.sessions + 1 }, outs)
@@ -392,7 +455,8 @@ def fin (st : St) : List String :=
   [s!"stat sessions {st.sessions}", s!"stat requests {st.reqs}", s!"stat forwarded {st.forwards}", s!"stat reforwarded_after_window {st.reforwards}",
    s!"stat duplicates {st.duplicates}", s!"stat dropped_full {st.fulls}", s!"stat dropped_unknown {st.unknowns}",
    s!"stat chain_id_above_16_bits {st.wraps}", s!"stat ticks {st.ticks}", s!"stat purged_entries {st.purges}", s!"stat posts {st.posts}",
-   s!"stat admin_posts {st.adminPosts}", s!"stat admin_posts_on_full_queue {st.adminFull}", s!"stat clock_advances {st.advances}"]
+   s!"stat admin_posts {st.adminPosts}", s!"stat admin_posts_on_full_queue {st.adminFull}", s!"stat clock_advances {st.advances}",
+   s!"stat burst_lines {st.bursts}", s!"stat requests_in_burst_lines {st.burstReqs}"]
 
 def run (h : IO.FS.Stream) : IO Unit := loop h ({} : St) step fin
 
